@@ -293,6 +293,13 @@ func (vc *VC) calleeEnv(ci *calleeInfo, heap, old *Heap) *Env {
 			return "", nil, false
 		}
 	}
+	// ghost locals of the callee are internal to it: at a call site each is some unknown value (fixed per call site)
+	for _, gl := range ci.contract.GhostLocals {
+		ge := &Env{vc: vc, pkg: gl.Pkg, vars: map[string]TV{}, heap: heap, old: old}
+		gt := ge.resolveType(gl.Type)
+		name := fmt.Sprintf("glocal_%s_%s_%d", sanitize(shortKey(ci.key)), gl.Name, vc.curCallSeq)
+		e.vars[gl.Name] = TV{T: vc.d.declConst(name, gt.Sort), S: gt}
+	}
 	vc.bindLets(e, ci.contract)
 	return e
 }
@@ -319,6 +326,8 @@ func (vc *VC) applyContract(st *State, ci *calleeInfo, instr ssa.Instruction, si
 		}
 	}
 	st.callCount[ci.key]++
+	vc.callSeq++
+	vc.curCallSeq = vc.callSeq
 	vc.siteGhost(st, ci, instr, true)
 	if ci.recv != nil {
 		vc.lockHooks(st, ci.key, ci.recv.T, instr, true)
